@@ -863,6 +863,9 @@ func (t *Terms) shiftShapeOf(f *ssa.Function) *shiftShape {
 
 // testShapeOf recognises `return recv.F.G == param`.
 func (t *Terms) testShapeOf(f *ssa.Function) *testShape {
+	if f == nil {
+		return nil // a call through a function value
+	}
 	if s, ok := testCache[f]; ok {
 		return s
 	}
